@@ -259,7 +259,8 @@ impl Prop for P06 {
         // an environment that leaves (almost) nothing of a 128 KiB budget: xargs says so, or manages with what is left -
         // it does not build command lines exec has no room for
         if idx % 16 == 9 {
-            let d = *rng.pick(&[-400i64, 0, 300, 900, 1500, 2100, 2600, 4000]);
+            // (what is left after the headroom: nothing at all, a few hundred bytes, a little more - in turn)
+            let d = [-400i64, 300, 1200, 0, 900, 2600][(idx / 16) % 6] + rng.below(100) as i64;
             let total = 131072 - 2048 - 48 - d;          // bytes and pointers of four variables V000000=xxxx..
             let size = (total / 4 - 17).max(1) as u64;
             return json!({"mode": "run", "groups": [{"count": 400, "len": 3}], "opts": [], "env": {"count": 4, "size": size}, "rlim": 512 * 1024,
